@@ -226,11 +226,42 @@ def template_pieces(template, explicit_srcs, args):
 
 
 class SymX:
-    def __init__(self, body, macros=None):
+    def __init__(self, body, macros=None, inline=None, depth=0):
         self.body = body
         self.macros = macros if macros is not None else body.get("macros", [])
         self.done = []
         self.npaths = 0
+        self.inline = inline or {}     # def path -> HIR body of local fns to inline at call sites
+        self.depth = depth
+        self.breaks, self.continues = [], []
+
+    def _sub(self):
+        sx = SymX(self.body, self.macros, self.inline, self.depth)
+        return sx
+
+    def inline_call(self, cal, vals, s, node):
+        """Evaluate a local callee's paths with its parameters bound to the argument terms."""
+        cb = self.inline.get(cal)
+        if cb is None or self.depth >= 3:
+            return None
+        sub = SymX(cb, None, self.inline, self.depth + 1)
+        st0 = St()
+        for i, p in enumerate(cb.get("params", [])):
+            sub.bind(p, vals[i] if i < len(vals) else None, st0)
+        outs = sub.ev(cb["body"], st0)
+        paths = [Path(bs, "fall", bv) for bs, bv in outs] + sub.done
+        res = []
+        ret_ty = cb.get("ret", "")
+        for p in paths:
+            v = p.ret
+            if p.kind == "try":
+                if ret_ty.startswith("std::option::Option<"):
+                    v = ("ctor", "std::option::Option::None", [])
+                else:
+                    v = ("ctor", "std::result::Result::Err", [("call", "<from-err>", [p.ret[1]], node)])
+            s2 = St(dict(s.env), s.conds + p.conds, s.trace + [("call", "<enter>", [("lit", cal)], node)] + p.trace)
+            res.append((s2, v))
+        return res
 
     # -- entry ---------------------------------------------------------------------------
     def run(self, node=None, params=None, env=None):
@@ -407,7 +438,11 @@ class SymX:
                     t = ("call", "<indirect>", [fv] + vals, e)
                 else:
                     res = e["f"].get("res", {}) if isinstance(e.get("f"), dict) else {}
-                    t = ("call", res.get("resolved") or cal, vals, e)
+                    inl = self.inline_call(res.get("resolved") or cal, vals, s, e)
+                    if inl is not None:
+                        outs.extend(inl)
+                        continue
+                    t = ("call", cal, vals, e)
                 s2 = s.fork()
                 s2.trace.append(t)
                 outs.append((s2, t))
@@ -415,7 +450,12 @@ class SymX:
         if k == "mcall":
             outs = []
             for s, vals in self.seq([e["recv"]] + e["args"], st):
-                t = ("call", e.get("callee") or ("?." + e["name"]), vals, e)
+                target = e.get("callee") or ("?." + e["name"])
+                inl = self.inline_call(e.get("resolved") or target, vals, s, e)
+                if inl is not None:
+                    outs.extend(inl)
+                    continue
+                t = ("call", target, vals, e)
                 s2 = s.fork()
                 s2.trace.append(t)
                 outs.append((s2, t))
@@ -561,8 +601,6 @@ class SymX:
             return [(s, ("await", v)) for s, v in self.ev(e["e"], st)]
         return [(st, ("opaque", k))]
 
-    breaks = None
-    continues = None
 
     def stmt(self, stmt, st):
         k = stmt["k"]
@@ -629,8 +667,7 @@ class SymX:
                 if body is None:
                     outs.append((s, ("unit",)))
                     continue
-                sub = SymX(self.body, self.macros)
-                sub.breaks, sub.continues = [], []
+                sub = self._sub()
                 s_body = St(env=dict(s.env))
                 sub.bind(pat, ("elem", itv), s_body)
                 body_outs = sub.ev(body, s_body)
@@ -662,8 +699,7 @@ class SymX:
         return outs
 
     def ev_loop(self, e, st):
-        sub = SymX(self.body, self.macros)
-        sub.breaks, sub.continues = [], []
+        sub = self._sub()
         body_outs = sub.ev(e["body"], St(env=dict(st.env)))
         for p in sub.done:
             sp = St(dict(p.env), st.conds + p.conds, st.trace + p.trace)
@@ -683,10 +719,47 @@ class SymX:
         return outs
 
 
-def paths_of(body, node=None):
-    sx = SymX(body)
-    sx.breaks, sx.continues = [], []
+def paths_of(body, node=None, inline=None):
+    sx = SymX(body, inline=inline)
     return sx.run(node)
+
+
+def simp(t):
+    """Fold a few combinators applied to literal constructors (used after inlining helpers)."""
+    if not isinstance(t, tuple):
+        return t
+    k = t[0]
+    if k in ("ok?",):
+        x = simp(t[1])
+        if x[0] == "ctor" and x[1].split("::")[-1] in ("Some", "Ok") and isinstance(x[2], list) and len(x[2]) == 1:
+            return x[2][0]
+        return ("ok?", x)
+    if k == "un":
+        x = simp(t[2])
+        if t[1] == "Not" and x[0] == "lit" and isinstance(x[1], bool):
+            return ("lit", not x[1])
+        if t[1] == "Not" and x[0] == "un" and x[1] == "Not":
+            return x[2]
+        return ("un", t[1], x)
+    if k == "ctor":
+        if isinstance(t[2], dict):
+            return ("ctor", t[1], {n: simp(v) for n, v in t[2].items()})
+        return ("ctor", t[1], [simp(v) for v in t[2]])
+    if k == "call":
+        args = [simp(a) for a in t[2]]
+        name = t[1]
+        if name in ("std::option::Option::<T>::unwrap_or", "std::result::Result::<T, E>::unwrap_or") and len(args) == 2 and args[0][0] == "ctor":
+            v = args[0][1].split("::")[-1]
+            if v in ("Some", "Ok") and args[0][2]:
+                return args[0][2][0]
+            if v in ("None", "Err"):
+                return args[1]
+        if name == "std::option::Option::<T>::unwrap_or_default" and args and args[0][0] == "ctor":
+            v = args[0][1].split("::")[-1]
+            if v == "Some" and args[0][2]:
+                return args[0][2][0]
+        return ("call", name, args) + tuple(t[3:])
+    return t
 
 
 def closure_paths(body, closure_term, arg_terms=None):
@@ -694,7 +767,6 @@ def closure_paths(body, closure_term, arg_terms=None):
     node = closure_term[1]
     env = closure_term[2] if len(closure_term) > 2 else {}
     sx = SymX(body)
-    sx.breaks, sx.continues = [], []
     st = St(env=dict(env))
     for i, p in enumerate(node.get("params", [])):
         sx.bind(p, (arg_terms[i] if arg_terms and i < len(arg_terms) else None), st)
